@@ -33,6 +33,14 @@ func runC01(c *Ctx, pr *PropertyRun) {
 	c01Dispatch(c, pr, "C01")
 	c01Adapter(c, pr, "C01")
 	serveErrorTable(c, pr, "C01")
+	// every name that denotes a resource is accepted (and only those): the
+	// sanitiser's table, shared with C03.sanitiser-shape
+	acc := NewRule("C01", "C01.path-acceptance", "decision table of localPath: success exactly for NUL-free names whose path.Clean form is absolute — no other name is refused (E2, shared with C03)")
+	acc.Exhaustive = true
+	pr.Rules = append(pr.Rules, acc)
+	if san := c.P.MustFunc(acc, pkgWebdav, "(LocalFileSystem).localPath"); san != nil {
+		c03Shape(c, acc, san, c.P)
+	}
 	fsFaultRules(c, pr, "C01")
 	c01Structure(c, pr)
 }
